@@ -1,5 +1,6 @@
 import Norad.Props.C16
 import Norad.Generated.StoreOps
+import Norad.Generated.StorePlanGen
 /-!
 # C16 — source-level tie of the store OPERATIONS
 
@@ -17,7 +18,7 @@ equalities no longer check.
 Property theorems only.
 -/
 namespace C16
-open Path
+open Path StoreOrder StorePlan AbsFS FontSave
 
 /-- both `validate_entry`, as the code has them now, are the model's validation (all keys, stores, contents) -/
 theorem source_validate_eq_model : Gen.validate = validate := by
@@ -195,5 +196,53 @@ theorem source_newStore_inv (kind : Kind) (t : Listing) (s : Store) (hwf : Listi
   rw [source_newStore_eq_model] at h; exact newStore_inv kind t s hwf h
 
 example : Gen.newStore .image [([['a']], .file)] = .ok ⟨.image, [(['a'], .notLoaded)]⟩ := by decide
+
+/-! ### the store-writing blocks of `Font::save_impl` (`Generated/StorePlanGen.lean`) -/
+
+/-- the `data` block of `save_impl`, effect by effect (`create_dir_all` of the destination's parent, then the write, per
+    entry; nothing for an empty store), is the data part of `FontSave.plan` -/
+theorem source_data_plan_eq_model {β : Type} (t : APath) (items : List (Path.P × β)) :
+    PlanGen.planData t items = items.flatMap (planDataItem t) := by
+  unfold PlanGen.planData PlanGen.planDataPre
+  cases items with
+  | nil => rfl
+  | cons a r => rfl
+
+/-- the `images` block (one `create_dir`, then one plain write per entry; nothing for an empty store) is
+    `FontSave.planImages` -/
+theorem source_image_plan_eq_model {β : Type} (t : APath) (items : List (Path.P × β)) :
+    PlanGen.planImages t items = planImages t items := by
+  have hm : ∀ l : List (Path.P × β),
+      l.flatMap (PlanGen.planImagesItem t) = l.map fun kb => Eff.write (joinRel (sub t "images") kb.1) kb.2 := by
+    intro l
+    induction l with
+    | nil => rfl
+    | cons a r ih => simp only [List.flatMap_cons, List.map_cons, ih]; rfl
+  unfold PlanGen.planImages planImages PlanGen.planImagesPre
+  rw [hm]
+  rfl
+
+/-- the store plans AS REGENERATED run on the abstract file system and leave the verbatim files
+    (`store_plan_runs`, `image_plan_runs` over `PlanGen`) -/
+theorem source_store_plans_run (s : Store) (h : Inv s) (hplain : ∀ k ∈ keys s, (parse k).allNormal = true)
+    (t : APath) (fs : FS StoreOrder.Bytes) (ws : List WriteFile) (h1 : writesOf s = some ws)
+    (hT : ∀ m, m <+: t → m ≠ [] → isDir fs m = true) :
+    ((∀ q, (t ++ [storeDirName .data]) <+: q → node fs q = none) →
+      ∃ fs', runEffs (PlanGen.planData t (ws.map fun w => (parse w.key, w.bytes))) fs = (none, fs') ∧
+        treeOf fs' = writeAll (treeOf fs) (storeWrites (t ++ [storeDirName .data]) ws)) ∧
+    (s.kind = .image → (∀ q, (t ++ [storeDirName .image]) <+: q → node fs q = none) →
+      ∃ fs', runEffs (PlanGen.planImages t (ws.map fun w => (parse w.key, w.bytes))) fs = (none, fs') ∧
+        treeOf fs' = writeAll (treeOf fs) (storeWrites (t ++ [storeDirName .image]) ws)) := by
+  constructor
+  · intro hfresh
+    rw [source_data_plan_eq_model]
+    exact store_plan_runs s h hplain t fs ws h1 hT hfresh
+  · intro hkind hfresh
+    rw [source_image_plan_eq_model]
+    exact image_plan_runs s h hkind hplain t fs ws h1 hT hfresh
+
+example : PlanGen.planImages (β := Nat) [['t']] [(parse ['a'], 1)]
+    = [.mkdir [.normal ['t'], .normal "images".toList], .write [.normal ['t'], .normal "images".toList, .normal ['a']] 1] := by
+  rfl
 
 end C16
